@@ -163,19 +163,24 @@ func VerifC13ForwardedTx() {
 func VerifC06ForwardedBadFile() {
 	ctx := context.Background()
 	s, store, db := verifServer(0)
+	// one local commit first, so that the transaction log is not empty
+	if _, ok := litefs.VerifCommitPage1(db); !ok {
+		rt.Fail("harness: setup commit")
+	}
 	pos0 := db.Pos()
+	next := uint64(pos0.TXID) + 1
 	hl, err := db.AcquireHaltLock(ctx, 7)
 	rt.Check(err == nil && hl != nil, "halt lock granted")
 	// (a body damaged without changing its length is decided by the file's CRC, which is an uninterpreted
 	// function here: that case is left to c18/ltx and not claimed)
-	kind := rt.Choose("file", 5) // 0 good, 1 min TXID too high, 2 min TXID too low, 3 other pre-checksum, 4 truncated
-	txid := uint64(42)
+	kind := rt.Choose("file", 6) // 0 good, 1 min TXID too high, 2 min TXID too low, 3 other pre-checksum, 4 truncated, 5 snapshot-typed header (min TXID 1) with a truncated body
+	txid := next
 	pre := pos0.PostApplyChecksum
 	switch kind {
 	case 1:
-		txid = 43
+		txid = next + 1
 	case 2:
-		txid = 41
+		txid = next - 1
 	case 3:
 		d := rt.U64("pre.delta")
 		rt.Assume(d != 0 && d>>63 == 0)
@@ -183,6 +188,10 @@ func VerifC06ForwardedBadFile() {
 	}
 	file := litefs.VerifEncodeTx(db, 0xAA, ltx.TXID(txid), pre)
 	if kind == 4 {
+		file = file[:len(file)-1-rt.Choose("cut", 3)*200]
+	}
+	if kind == 5 {
+		file = litefs.VerifEncodeSnapshot(db, 0xAA, ltx.TXID(next))
 		file = file[:len(file)-1-rt.Choose("cut", 3)*200]
 	}
 	before := litefs.VerifSnapshotState(store)
@@ -193,7 +202,7 @@ func VerifC06ForwardedBadFile() {
 		code = 200
 	}
 	if kind == 0 {
-		rt.Check(code == 200 && db.Pos().TXID == 42, "a file that extends the exact position is applied")
+		rt.Check(code == 200 && uint64(db.Pos().TXID) == next, "a file that extends the exact position is applied")
 		rt.Reach("c06.forwarded.good")
 		return
 	}
